@@ -150,6 +150,10 @@ def main(argv=None):
     os.makedirs(work, exist_ok=True)
     os.makedirs(os.path.join(EVID, "replays"), exist_ok=True)
     evid_path = os.path.join(EVID, f"{prop}.json")
+    if os.path.realpath(repo_root()) != "/repo":
+        # runs against a scratch copy (seeded-change validation) never touch the evidence of /repo
+        os.makedirs(os.path.join(EVID, "scratch"), exist_ok=True)
+        evid_path = os.path.join(EVID, "scratch", f"{prop}.json")
 
     t0 = time.time()
     maxpar = int(os.environ.get("VERIF_JOBS", str(os.cpu_count() or 4)))
